@@ -47,6 +47,11 @@ func genProgram(t *rapid.T) (files map[string]string, units []unit, mode int) {
 		p.constructors(nt)
 		p.types = append(p.types, nt)
 	}
+	if rapid.IntRange(0, 3).Draw(t, "zeroSizeResults") == 0 {
+		nt := p.zeroSizeResultType()
+		p.constructors(nt)
+		p.types = append(p.types, nt)
+	}
 	for _, nt := range p.types {
 		u := unit{t: nt}
 		q := ""
@@ -343,8 +348,12 @@ func lineKey(u unit, la, lb string) string {
 	// gc panics when a promoted value-receiver method is called through a nil embedded pointer; llgo's wrapper
 	// does not dereference the pointer when the method ignores its receiver (root cause listed under C03:
 	// a dereference whose result is unused does not fault)
-	if (strings.Contains(la, " V.call ") || strings.Contains(la, " V.pcall ")) && strings.HasSuffix(la, "call PANIC") && !strings.Contains(lb, "PANIC") && (hasFeat("embedded_pointer") || u.t.kind == "ptr") {
+	if (strings.Contains(la, " V.call ") || strings.Contains(la, " V.pcall ")) && strings.Contains(la, "call PANIC") && !strings.Contains(lb, "PANIC") && (hasFeat("embedded_pointer") || u.t.kind == "ptr") {
 		return "C15:call:nil-pointer-receiver-not-dereferenced"
+	}
+	// reflect cannot call a function with a zero-size result (libffi rejects the empty aggregate)
+	if (strings.Contains(la, " V.call ") || strings.Contains(la, " V.pcall ")) && strings.Contains(lb, "call PANIC bad type def") && hasFeat("zero_size_result_method") {
+		return "C15:call:zero-size-result"
 	}
 	return ""
 }
